@@ -17,7 +17,7 @@ while IFS=$'\t' read -r prop file expr expect; do
   rc=$?
   rm -rf "$d"
   verdict=equivalent; [ $rc -eq 1 ] && verdict=caught; [ $rc -ge 2 ] && verdict=fault
-  if [ "$verdict" = "$expect" ]; then ok=$((ok+1)); echo "ok   $prop $verdict: $expr"; else bad=$((bad+1)); echo "BAD  $prop expected=$expect got=$verdict: $file $expr"; fi
+  if [ "$expect" = "missed" ] && [ "$verdict" = "equivalent" ]; then ok=$((ok+1)); echo "gap  $prop not detected (declined clause): $expr"; elif [ "$verdict" = "$expect" ]; then ok=$((ok+1)); echo "ok   $prop $verdict: $expr"; else bad=$((bad+1)); echo "BAD  $prop expected=$expect got=$verdict: $file $expr"; fi
 done < mutants/corpus.tsv
 for pf in mutants/patches/*.diff; do
   [ -f "$pf" ] || continue
